@@ -104,6 +104,9 @@ func runOne(prop, tier string, c *core.Choices, trace bool, plan *faultPlan) *ha
 	s.KillAll()
 	res.Sig = strings.Join(s.SigParts, ",")
 	res.Nontrivial = s.Stats["bind.applied"] > 0 && (s.Contested > 0 || strings.Contains(res.Sig, "F:"))
+	if prop == "C18" {
+		res.Nontrivial = s.Stats["hostile.pod"]+s.Stats["hostile.http"]+s.Stats["hostile.conf"] > 0
+	}
 	res.Summary = "ops=" + strings.Join(w.summary, ",")
 	return res
 }
